@@ -28,6 +28,11 @@ inductive Req where
   | queryErr (kind : String)
   /-- query over `parts` partitions during which `m` worker panics and `c` caller panics (outside any lock) were observed -/
   | natural (parts m c : Nat)
+  /-- query whose failure arises in a chosen phase of its execution: `bodies` = per partition the outcome of the scan and of
+      the merges `run()` does itself (`fail_with`), `final` = the outcome of what `push_result` does under the state mutex
+      once the last batch arrived: merge across workers, final pass, output conversion (`fail_with_no_lock`).
+      `kind` = the kind of the error value (`QueryError`) the caller is given. -/
+  | queryPhase (bodies : List Out) (final : Out) (kind : String)
   | fnTask (body : Out)
   | stats | memTree | ingest
   /-- force_flush: k1 batching jobs, f1 of them fault; k2 compaction jobs, f2 fault; tf: the flush thread's own body faults -/
@@ -62,6 +67,11 @@ def callTask (cfg : Cfg) (d : Db) (bodies : List Out) (final : Out) : Db × Ret 
     | none => Ret.hang
   ({ d with pool := p }, r)
 
+/-- the error value of a query task is of the kind the engine produced -/
+def Ret.retag (kind : String) : Ret → Ret
+  | .err k => if k = "value" then .err kind else .err k
+  | r => r
+
 def Db.request (cfg : Cfg) (d : Db) : Req → Db × Ret
   | .query bodies =>
     if PLock.tableLocks ∈ d.poisoned then (d, .panic)            -- Table::snapshot: lock().unwrap() in the caller
@@ -71,6 +81,9 @@ def Db.request (cfg : Cfg) (d : Db) : Req → Db × Ret
     if c ≠ 0 then (d, .panic)
     else if PLock.tableLocks ∈ d.poisoned then (d, .panic)
     else callTask cfg d (jobs parts m) .done
+  | .queryPhase bodies final kind =>
+    if PLock.tableLocks ∈ d.poisoned then (d, .panic)
+    else ((callTask cfg d bodies final).1, (callTask cfg d bodies final).2.retag kind)
   | .fnTask b => callTask cfg d [b] .done
   | .stats | .memTree =>
     callTask cfg d [if PLock.tableLocks ∈ d.poisoned then .fault else .done] .done   -- the worker meets the poisoned lock
